@@ -90,7 +90,7 @@ theorem gapT_root_Z {f : Forest} {q b : Nat} {vq : Value} {L : List HTree} {t : 
   have nd := sq.nd
   have sZ := sq.edit G hsub
   have hb : t.handle = b := (findList?_some f.roots t hgb).1
-  have hbq : b ≠ q := fun e => hqt (e ▸ hb ▸ handle_mem_handles t)
+  have hbq : b ≠ q := fun e => hqt (e ▸ hb ▸ fs_handle_mem_handles t)
   have hZget : (f.editAt (some q) G).get? b = some t := by
     rw [Forest.get?_editAt_other hbq nd (by
       intro v' L' e
